@@ -369,6 +369,11 @@ func (l c20) Exec(env *core.Env) *core.Result {
 				if !mustRefuse {
 					mustAccept = true
 				}
+				if _, _, valid := semverParts(version); !valid {
+					// "invalid version" is among the statement's refusals: where nothing forces the comparison (a
+					// first installation, overwrite) an implementation may install it or refuse it
+					mustAccept = false
+				}
 				path := filepath.Join(d, "notation-"+name)
 				if fromDir {
 					path = d
@@ -459,13 +464,13 @@ func (l c20) Exec(env *core.Env) *core.Result {
 					}
 				}
 				sort.Strings(diffs)
-				if len(diffs) > 0 && mustAccept {
+				if len(diffs) > 0 && !mustRefuse {
 					res.Violate("C20/installed-files-differ-from-source-top-level", key, "after a successful install the plugin directory does not hold exactly the regular top-level files of the source: %s", strings.Join(diffs, "; "))
 				}
 				if newMeta == nil || newMeta.Version != version || newMeta.Name != name {
 					res.Violate("C20/wrong-new-metadata-returned", key, "Install returned new metadata %+v, want %s@%s", newMeta, name, version)
 				}
-				if a, aerr := answers(name); mustAccept && (aerr != nil || a != name+"@"+version) {
+				if a, aerr := answers(name); !mustRefuse && (aerr != nil || a != name+"@"+version) {
 					res.Violate("C20/installed-plugin-does-not-answer-with-new-metadata", key, "after a successful install the plugin answers %q (%v), want %s@%s", a, aerr, name, version)
 				}
 				// everything outside <root>/<name> is untouched
